@@ -494,7 +494,7 @@ Proof.
   rewrite Z.odd_add, Z.odd_mul. rewrite B_val. cbn [Z.odd andb]. apply xorb_false_r.
 Qed.
 
-Lemma length_enc_bound v k : 0 <= v < B ^ Z.of_nat k -> (length (enc v) <= k)%nat.
+Lemma length_enc_le_pow v k : 0 <= v < B ^ Z.of_nat k -> (length (enc v) <= k)%nat.
 Proof.
   intros Hv. destruct (enc v) as [|d l] eqn:E; [cbn; lia|].
   pose proof (enc_canon v) as Hc. rewrite E in Hc.
@@ -736,7 +736,7 @@ Proof.
   { destruct (Nat.ltb_spec nw (length x)).
     - rewrite (brem_spec) by (try split; auto; lia). eexists; split; [reflexivity|].
       split; [apply enc_wf|]. pose proof (Z.mod_pos_bound (val x) M HM).
-      split; [apply length_enc_bound; fold R; lia|]. rewrite enc_val by lia. apply Z.mod_mod; lia.
+      split; [apply length_enc_le_pow; fold R; lia|]. rewrite enc_val by lia. apply Z.mod_mod; lia.
     - exists x. repeat split; auto. }
   destruct Hx1 as (x1 & Ex1 & Wx1 & Lx1 & Vx1). rewrite Ex1. cbn [bind].
   set (x2 := if (length x1 <? nw)%nat then resize x1 nw else x1).
@@ -760,7 +760,7 @@ Proof.
   assert (Hrr : wf rr /\ length rr = nw /\ val rr = (R * R) mod M).
   { pose proof (Z.mod_pos_bound (R * R) M HM) as Hb.
     assert (Wr : wf rr1) by apply enc_wf.
-    assert (Lr : (length rr1 <= nw)%nat) by (apply length_enc_bound; fold R; lia).
+    assert (Lr : (length rr1 <= nw)%nat) by (apply length_enc_le_pow; fold R; lia).
     assert (Vr : val rr1 = (R * R) mod M) by (apply enc_val; lia).
     unfold rr. destruct (Nat.ltb_spec (length rr1) nw).
     - destruct (resize_spec rr1 nw Wr Lr) as (A1 & A2 & A3). repeat split; auto; congruence.
